@@ -14,6 +14,7 @@ RULES = {
     "R-01.2": "_validate_labels raises LabelTooLong exactly for len(label) >= 64 and NameTooLong exactly for sum(len+1) >= 256",
     "R-01.3": "wire decoding: every seek target is strictly below every earlier pointer and the name's start; literal labels are < 64 octets; other label types raise; the loop consumes input on every iteration",
     "R-01.4": "compression table: offsets stored are <= 0x3FFF and taken before the label is written, keyed by the same suffix that is looked up; the root is never inserted; pointers are 0xC000 + stored offset",
+    "R-01.12": "compressed names are decoded in the message they sit in: every wire Parser is built over the whole buffer and positioned through the bounded seek() (rule of C04 R-04.5, run here directly)",
     "R-01.11": "a name token is unescaped exactly once: Tokenizer.get_name / as_name hand the raw token text to dns.name.from_text (which runs the escape state machine) and never call Token.unescape() first - unescaping twice turns `\\.` into a label separator and `\\@` into the origin",
     "R-01.10": "the text escape state machine (from_text and from_unicode alike) starts every escape from a clean state: the branch that enters the escaping state zeroes the digit counter and the accumulated value there, not at label boundaries - otherwise a second escape in one label is misread or refused",
     "R-01.9": "Name.to_wire derelativizes in two arms (bytes returned, file written); each arm that appends the origin's labels bounds the result by 255 octets: the file arm builds Name(labels) (validated), the bytes arm raises NameTooLong when len(out) > 255",
@@ -372,6 +373,8 @@ def run(model, rep, tier):
                   f"the branch that enters the escaping state does not zero {missing}: after one complete \\DDD escape the next escape in the same label starts with stale digits "
                   "(it is refused with BadEscape or decoded to the wrong octet), so text the library itself produced does not parse back", stmt="escape-reset")
     rep.floor("R-01.10", n_sm, 2)
+    from rules.c04 import check_parser_reads
+    check_parser_reads(model, rep, "R-01.12")
     # ---------------------------------------------------------------- R-01.11
     n_np = 0
     for qn in ("dns.tokenizer.Tokenizer.get_name", "dns.tokenizer.Tokenizer.as_name"):
